@@ -148,15 +148,22 @@ func (n *node) checkRetention(when string) {
 // occur (the clock only moves with the ticks). Checked after every event: retention and pending flag of every accepted
 // bundle without a successful transmission, transmission to the destination node as soon as it is a connected peer, and
 // under epidemic routing the offer to every connected peer that does not have the bundle.
-func H05_History() { history(true, false) }
+func H05_History() { history(true, false, false) }
 
 // H13_History: the same histories, judged by the per-peer log of transmissions: a bundle is never handed to the peer it
 // was received from, and never again to a peer to which it was transmitted successfully before (for spray variants,
 // whose memory is not stored: before since the last restart) - whatever failures, retries, disappearances and restarts
 // happen in between. Failed direct deliveries to the destination node may be repeated.
-func H13_History() { history(false, true) }
+func H13_History() { history(false, true, false) }
 
-func history(check05, check13 bool) {
+// H18_History: spray-and-wait with budget L = 2 under the same histories (without restarts, whose loss of the in-memory
+// budget is not the subject, and without received bundles): a locally originated bundle is transmitted successfully to
+// at most L-1 = 1 peer other than its destination, whatever the order of appearances, retries and failures; and the
+// budget does not leak: while no such transmission has succeeded, every retry (and every appearance of a peer) offers
+// the bundle to a connected peer again.
+func H18_History() { history(false, false, true) }
+
+func history(check05, check13, check18 bool) {
 	algos := []string{"epidemic", "spray", "binary_spray", "dtlsr", "prophet", "sensor-mule"}
 	n := newNode(algos[verif.Param("algo", 0)])
 	defer func() { n.c.Close() }()
@@ -249,6 +256,9 @@ func history(check05, check13 bool) {
 		}
 		if check13 {
 			n.checkNoRepeat(before)
+		}
+		if check18 {
+			n.checkBudget(before, 2)
 		}
 	}
 	// finally: every peer that is up and did not get a bundle successfully must have been offered it (epidemic) -
@@ -439,4 +449,37 @@ func H05_ConcurrentFailures() {
 		verif.Assert(offered, "after two transmissions failed at the same moment the bundle is offered to both peers again")
 	}
 	verif.Reach("end")
+}
+
+// checkBudget: C18 on the transmissions so far (spray-and-wait, budget L).
+func (n *node) checkBudget(before int, L int) {
+	for _, a := range n.acc {
+		if a.from != 0 || a.okDest {
+			continue
+		}
+		served := map[string]bool{}
+		for _, r := range n.log {
+			if r.ok && isCopyOf(r, a) && r.peer != n.peers[2].addr {
+				served[r.peer] = true
+			}
+		}
+		verif.Assert(len(served) <= L-1, "a spray-and-wait bundle is transmitted successfully to at most L-1 peers other than its destination")
+		// no leak: with copies left (nobody served yet) a retry or a newly appeared peer leads to an offer
+		ev := n.lastEv
+		if len(served) == 0 && !n.up[2] && (ev == 4 || ev == 6 || ev == 1 || ev == 2) && (n.up[0] || n.up[1]) {
+			servedBefore := false
+			for _, r := range n.log[:before] {
+				if r.ok && isCopyOf(r, a) {
+					servedBefore = true
+				}
+			}
+			offered := false
+			for _, r := range n.log[before:] {
+				if isCopyOf(r, a) {
+					offered = true
+				}
+			}
+			verif.Assert(offered || servedBefore, "the budget does not leak: while no copy was handed over successfully, a retry offers the bundle again")
+		}
+	}
 }
